@@ -118,6 +118,7 @@ var propRules = map[string][]ruleSpec{
 	"C15": {
 		{"R6", "operator gate tables T1-T8 (exhaustive over the registry)", ruleR6},
 		{"R2", "registry and constructor freshness", ruleR2},
+		{"R5", "the gate's result is what Apply receives (M5); a fresh operator per node (M4)", ruleR5},
 	},
 }
 
